@@ -99,10 +99,10 @@ CHECKS = {
   'note': 'A5 assumed; heapless Vec primitives (unsafe code) assumed and Kani-validated; accepted values "delivered whole" for borrowed members follows from zero-copy decoding (A8).' + _D,
  },
  'C13': {
-  'engine': 'V+K', 'design_ref': 'DESIGN.md §5 C13, §10.4f',
-  'technique': 'Verus proof of the two lossy text helpers (verbatim) and of the heapless String code under them, for texts of any length, against the contract of truncate; Kani function contract on floor_char_boundary (proof_for_contract), truncate proved against that contract, icon and name helpers through serde value deserializers (bounded in the string length)',
-  'text': 'Unbounded (Verus): the icon helper keeps a text of at most L bytes verbatim and reports a longer one absent, never an error; the name helper maps absent to absent and a present text to truncate(text), specified as the longest prefix of at most L bytes ending on a character boundary (a text that fits is unchanged). Bounded contract checking (Kani): floor_char_boundary == longest boundary prefix (no UB at unwrap_unchecked) for all valid UTF-8 strings <= 6 bytes (thorough 8) and, under the window precondition, <= 300 bytes with every index; truncate::<L> for L in {1,2,3,4,64}; user icon kept verbatim <= 128 bytes and dropped beyond, ASCII and multi-byte texts (this found the icon panic, fixed); present names stay present; rp icon discarded.',
-  'note': 'truncate / floor_char_boundary bodies: string length bounded (stated per harness), hence level model_checking; serde Deserialize of &str / Option<&str> modelled by contract; rejection of ill-formed UTF-8 is cbor-smol\'s from_utf8 (A8); A12 for the window variant.',
+  'engine': 'V+K', 'design_ref': 'DESIGN.md §5 C13, §10.4f, §10.4h',
+  'technique': 'Verus proof of the real bodies of truncate, floor_char_boundary and is_utf8_char_boundary (cut from src/webauthn.rs every run) against "longest prefix of at most L bytes ending on a character boundary", of the two lossy text helpers and of the heapless String code under them, for texts of any length and every capacity; Kani function contract on floor_char_boundary (proof_for_contract) and helper harnesses through serde value deserializers as bounded backstops that supply counterexamples',
+  'text': 'Unbounded (Verus, any text length, any capacity L): truncate(text) is the longest prefix of at most L bytes ending on a character boundary (a text that fits is unchanged), with the unsafe unwrap_unchecked, the str slicing and the push_str unwrap discharged as proof obligations; the char-boundary bit trick is proved by bit-vector reasoning for all bytes; the icon helper keeps a text of at most L bytes verbatim and reports a longer one absent, never an error; the name helper maps absent to absent and a present text to truncate(text). Two facts about UTF-8 itself are axioms (AU). Bounded backstops (Kani, real monomorphised code): floor_char_boundary for all valid UTF-8 strings <= 6 bytes (thorough 8) and, under the window precondition, <= 300 bytes with every index; truncate::<L> for L in {1,2,3,4,64}; user icon kept verbatim <= 128 bytes and dropped beyond (this found the icon panic, fixed); present names stay present; rp icon discarded.',
+  'note': 'assumed: AU (no four consecutive continuation bytes in a &str; first byte not a continuation byte), trusted wrappers for core rposition / &s[..k] / unwrap_unchecked, heapless Vec::extend_from_slice contract; serde Deserialize of &str / Option<&str> modelled by contract; rejection of ill-formed UTF-8 is cbor-smol\'s from_utf8 (A8); A12 for the Kani window variant. The Kani harnesses are labelled bounded and are not what the level rests on.',
  },
  'C14': {
   'engine': 'V+K', 'design_ref': 'DESIGN.md §5 C14, §10.4e',
